@@ -229,6 +229,13 @@ func kindOf(got, want int) string {
 
 func Run(c *common.Ctx) error {
 	cf := c.Cases("cases_c12", "Require Import LF.Model.RWMutex.", "list (nat * nat) * list nat", "mismatches")
+	byteRanges(c)
+	if err := rangeAttempts(c); err != nil {
+		return err
+	}
+	if err := twoOwnersPerLock(c); err != nil {
+		return err
+	}
 
 	// (a) exhaustive BFS over the closed state space of 4 owners
 	const G = 4
